@@ -19,7 +19,14 @@
 (* variant "fixed" the repaired one (every alias carries the prefix,       *)
 (* colliding aliases are disambiguated, substitution in a single pass at   *)
 (* word boundaries, longest alias first).  Variant "template": see        *)
-(* RestoreTemplate (names holding backslashes).                            *)
+(* RestoreTemplate (names holding backslashes).  Variant "squeeze": the    *)
+(* format step collapses runs of blanks (string literals are data).        *)
+(* Variant "unpadded": see SanitizeText (a placeholder must not fuse with  *)
+(* the word next to it).                                                   *)
+(*   e ::= ... | Kw(word, <<e>>) | Kw(word, <<e, e>>) | IfElse(e, e, e)    *)
+(* are python's keyword operators (not x, x in y, x and y, x if c else y): *)
+(* the only places where a quoted name can stand next to a WORD, the       *)
+(* backticks being the only delimiter (not`a b`, x if`c d`else y).         *)
 (***************************************************************************)
 EXTENDS Integers, Sequences, FiniteSets
 CONSTANT Variant
@@ -28,8 +35,10 @@ Id(n) == [k |-> "id", n |-> n, args |-> <<>>]
 Q(n) == [k |-> "q", n |-> n, args |-> <<>>]
 Str(t) == [k |-> "str", n |-> t, args |-> <<>>]
 Call(f, args) == [k |-> "call", n |-> f, args |-> args]
+Kw(w, args) == [k |-> "kw", n |-> w, args |-> args]                       \* prefix (one operand) or infix (two operands) keyword operator
+IfElse(a, c, b) == [k |-> "if", n |-> <<"i", "f">>, args |-> <<a, c, b>>]   \* a if c else b
 
-WordChars == {"a", "b", "c", "e", "x", "p", "f", "g", "_", "1", "o", "r", "m", "u", "l", "i"}      \* "+", "-", " " are not
+WordChars == {"a", "b", "c", "e", "x", "p", "f", "g", "_", "1", "o", "r", "m", "u", "l", "i", "n", "t", "d", "s"}      \* "+", "-", " " are not
 Digits == {"1"}
 IsWord(c) == c \in WordChars
 IsIdent(n) == n # <<>> /\ (\A i \in DOMAIN n : IsWord(n[i])) /\ n[1] \notin Digits
@@ -44,20 +53,38 @@ JoinC(parts, sep) == IF parts = <<>> THEN <<>> ELSE IF Len(parts) = 1 THEN parts
 RECURSIVE Escaped(_)
 Escaped(t) == IF t = <<>> THEN <<>> ELSE (IF Head(t) = "\\" THEN <<"\\", "\\">> ELSE <<Head(t)>>) \o Escaped(Tail(t))
 \* canonical formatting; names(q) gives the text printed for a quoted name
-RECURSIVE Render(_, _)
-Render(qtext(_), e) ==
+\* words and operands of a keyword operator are separated by one blank; in the TIGHT spelling of a source text the blank is left out
+\* wherever a backtick already delimits the two
+RECURSIVE JoinW(_, _)
+JoinW(parts, tight) == IF Len(parts) = 1 THEN parts[1]
+                       ELSE LET l == parts[1]
+                                r == JoinW(Tail(parts), tight) IN
+                            IF tight /\ (l[Len(l)] = "`" \/ r[1] = "`") THEN l \o r ELSE l \o <<" ">> \o r
+RECURSIVE RenderG(_, _, _)
+RenderG(qtext(_), tight, e) ==
   CASE e.k = "id" -> e.n
     [] e.k = "q" -> qtext(e.n)
     [] e.k = "str" -> <<"'">> \o Escaped(e.n) \o <<"'">>
-    [] OTHER -> e.n \o <<"(">> \o JoinC([i \in DOMAIN e.args |-> Render(qtext, e.args[i])], <<",", " ">>) \o <<")">>
+    [] e.k = "kw" -> LET a == [i \in DOMAIN e.args |-> RenderG(qtext, tight, e.args[i])] IN
+                     JoinW(IF Len(a) = 1 THEN <<e.n, a[1]>> ELSE <<a[1], e.n, a[2]>>, tight)
+    [] e.k = "if" -> LET a == [i \in DOMAIN e.args |-> RenderG(qtext, tight, e.args[i])] IN
+                     JoinW(<<a[1], <<"i", "f">>, a[2], <<"e", "l", "s", "e">>, a[3]>>, tight)
+    [] OTHER -> e.n \o <<"(">> \o JoinC([i \in DOMAIN e.args |-> RenderG(qtext, tight, e.args[i])], <<",", " ">>) \o <<")">>
+Render(qtext(_), e) == RenderG(qtext, FALSE, e)
 Tick(n) == <<"`">> \o n \o <<"`">>
 NormalForm(e) == Render(Tick, e)
+Tight(e) == RenderG(Tick, TRUE, e)        \* a source spelling of e that differs from the normal form in formatting only
 
 \* quoted names in order of first occurrence
 RECURSIVE QNames(_)
 RECURSIVE QNamesOf(_)
 QNamesOf(args) == IF args = <<>> THEN <<>> ELSE QNames(Head(args)) \o QNamesOf(Tail(args))
-QNames(e) == IF e.k = "q" THEN <<e.n>> ELSE IF e.k = "call" THEN QNamesOf(e.args) ELSE <<>>
+QNames(e) == IF e.k = "q" THEN <<e.n>> ELSE IF e.k \in {"call", "kw", "if"} THEN QNamesOf(e.args) ELSE <<>>
+\* the texts of the string literals
+RECURSIVE Strs(_)
+RECURSIVE StrsOf(_)
+StrsOf(args) == IF args = <<>> THEN {} ELSE Strs(Head(args)) \cup StrsOf(Tail(args))
+Strs(e) == IF e.k = "str" THEN {e.n} ELSE IF e.k \in {"call", "kw", "if"} THEN StrsOf(e.args) ELSE {}
 RECURSIVE Dedup(_, _)
 Dedup(s, seen) == IF s = <<>> THEN <<>> ELSE IF Head(s) \in seen THEN Dedup(Tail(s), seen) ELSE <<Head(s)>> \o Dedup(Tail(s), seen \cup {Head(s)})
 
@@ -69,7 +96,7 @@ Aliases(qs, acc) ==
            a0 == IF Variant = "pinned" /\ IsIdent(n) THEN n ELSE Prefix \o Base(n)
            Taken(a) == \E i \in DOMAIN acc : acc[i].alias = a /\ acc[i].orig # n
            RECURSIVE Free(_)
-           Free(a) == IF Variant \in {"fixed", "template"} /\ Taken(a) THEN Free(a \o <<"_">>) ELSE a
+           Free(a) == IF Variant \in {"fixed", "template", "squeeze", "unpadded"} /\ Taken(a) THEN Free(a \o <<"_">>) ELSE a
            a == Free(a0)
            acc2 == IF \E i \in DOMAIN acc : acc[i].alias = a
                    THEN [i \in DOMAIN acc |-> IF acc[i].alias = a THEN [alias |-> a, orig |-> n] ELSE acc[i]]
@@ -112,9 +139,16 @@ RECURSIVE RestoreTemplate(_, _)
 RestoreTemplate(t, tab) ==    \* insertion order, each pass at word boundaries over the result of the previous one
   IF tab = <<>> THEN t ELSE RestoreTemplate(RestoreFixed(t, 1, <<[alias |-> tab[1].alias, orig |-> Expand(tab[1].orig)]>>), Tail(tab))
 
+\* Variant "squeeze" (a design error TLC must refute): the format step, which has to take the line breaks out of the printed code,
+\* collapses EVERY run of blanks.  Blanks inside a string literal are data: the literal is "taken verbatim".  (A quoted name is a
+\* placeholder while the text is formatted, so names survive - SqueezeLaw says that exactly the literals with a run of blanks do not.)
+RECURSIVE Squeeze(_)
+Squeeze(t) == IF t = <<>> THEN <<>> ELSE IF Len(t) > 1 /\ t[1] = " " /\ t[2] = " " THEN Squeeze(Tail(t)) ELSE <<Head(t)>> \o Squeeze(Tail(t))
+
 Impl(e) ==
   LET tab == Aliases(QNames(e), <<>>)
-      sanitized == Render(LAMBDA n : AliasOf(tab, n), e)
+      printed == Render(LAMBDA n : AliasOf(tab, n), e)
+      sanitized == IF Variant = "squeeze" THEN Squeeze(printed) ELSE printed
   IN IF Variant = "pinned" THEN RestorePinned(sanitized, tab)
      ELSE IF Variant = "template" THEN RestoreTemplate(sanitized, tab) ELSE RestoreFixed(sanitized, 1, tab)
 
@@ -122,6 +156,7 @@ Faithful(e) == Impl(e) = NormalForm(e)
 \* what exactly the template restoration gets wrong: the expressions holding a quoted name that a template does not reproduce
 TemplateProof(n) == Expand(n) = n
 TemplateLaw(e) == Variant = "template" => (Faithful(e) <=> \A i \in DOMAIN QNames(e) : TemplateProof(QNames(e)[i]))
+SqueezeLaw(e) == Variant = "squeeze" => (Faithful(e) <=> \A t \in Strs(e) : Squeeze(t) = t)
 
 (***************************************************************************)
 (* The scanner in front of the three steps (UNQUOTED_BACKTICK_MATCHER and  *)
@@ -179,4 +214,35 @@ ScanOK(e) == ScannedNames(NormalForm(e)) = QNames(e)
 \* ... and loses no character doing so
 ScanLossless(e) == LET sg == Scan(NormalForm(e)) IN
                    CatSegs([i \in DOMAIN sg |-> IF sg[i].k = "name" THEN Seg("name", Tick(sg[i].t)) ELSE sg[i]]) = NormalForm(e)
+
+(***************************************************************************)
+(* Between the scanner and the python parser: the quoted names of the      *)
+(* SOURCE TEXT are replaced by their placeholders (the loop of             *)
+(* sanitize_variable_names), and python reads the result.  Python reads    *)
+(* words: a placeholder that touches a word character becomes part of that *)
+(* word.  In the source text the backticks delimit the name, so blanks     *)
+(* around them are formatting (Tight); the placeholder is therefore put in *)
+(* between blanks.  Variant "unpadded" (a design error TLC must refute)    *)
+(* does not do that.                                                       *)
+(* LAW (SanitizeLexOK): the sanitised tight source text reads, word for    *)
+(* word, as the printed form of the expression over the placeholders - so  *)
+(* whatever the spelling, python parses the expression that Impl formats.  *)
+(***************************************************************************)
+SanitizeText(t, tab) ==
+  LET sg == Scan(t)
+      pad == IF Variant = "unpadded" THEN <<>> ELSE <<" ">> IN
+  CatSegs([i \in DOMAIN sg |-> IF sg[i].k = "name" THEN Seg("name", pad \o AliasOf(tab, sg[i].t) \o pad) ELSE sg[i]])
+\* python's reading of a text: string literals, maximal runs of word characters, single other characters; blanks separate
+RECURSIVE WordsOf(_, _)
+WordsOf(sg, cur) ==
+  LET flush == IF cur = <<>> THEN <<>> ELSE <<cur>> IN
+  IF sg = <<>> THEN flush
+  ELSE LET h == Head(sg) IN
+       IF h.k = "ch" /\ IsWord(h.t[1]) THEN WordsOf(Tail(sg), cur \o h.t)
+       ELSE flush \o (IF h.t = <<" ">> THEN <<>> ELSE <<h.t>>) \o WordsOf(Tail(sg), <<>>)
+Words(t) == WordsOf(Lex(t, 1), <<>>)
+SanitizeLexOK(e) ==
+  LET tab == Aliases(QNames(e), <<>>) IN
+  /\ ScannedNames(Tight(e)) = QNames(e)
+  /\ Words(SanitizeText(Tight(e), tab)) = Words(Render(LAMBDA n : AliasOf(tab, n), e))
 =============================================================================
